@@ -6,6 +6,8 @@ import LdpcV.Driver.C08
 import LdpcV.Driver.C02
 import LdpcV.Driver.C11
 import LdpcV.Driver.C06
+import LdpcV.Driver.C14
+import LdpcV.Driver.C04F
 open LdpcV
 
 def dispatch (line : String) : String :=
@@ -17,7 +19,9 @@ def dispatch (line : String) : String :=
   | "c10" :: rest => Driver.Dec.handleC10 rest out
   | "c18" :: rest => Driver.Dec.handleC18 rest out
   | "c03" :: rest => Driver.Dec.handleC03 rest out
+  | "c04" :: "f" :: ty :: m :: [] => Driver.C04F.handleC04F ty m out
   | "c04" :: rest => Driver.C04.handleC04 rest out
+  | "c05" :: "vf" :: ty :: i :: m :: [] => Driver.C04F.handleC05VF ty i m out
   | "c05" :: rest => Driver.C04.handleC05 rest out
   | "c08" :: rest => Driver.C08.handle rest out
   | "c02" :: rest => Driver.C02.handleC02 rest out
@@ -25,6 +29,7 @@ def dispatch (line : String) : String :=
   | "c11" :: rest => Driver.C11.handle rest out
   | "c06" :: rest => Driver.C06.handle rest out
   | "c07" :: rest => Driver.C07.handle rest out
+  | "c14" :: rest => Driver.C14.handle rest out
   | _ => "BADLINE unknown-tag"
 
 partial def loop (h : IO.FS.Stream) (o : IO.FS.Stream) : IO Unit := do
